@@ -2,7 +2,28 @@
    dig  <hex body>                  -> <hex model: bytes hashed> <hex spec: makepatchsum_filter>   ("panic" if the load fails)
    chk  <hex body> <hex distinfo hash> <hex digest of the filtered bytes, computed by the caller>
                                     -> silent | differs <hex old> <hex new>      (H = the caller's digest: constant function)
-   repl <hex from> <hex to> <hex text>,<hex text>...   -> texts after Autofix.Replace, ","-separated *)
+   repl <hex from> <hex to> <hex text>,<hex text>...   -> texts after Autofix.Replace, ","-separated
+   fixl <hex old> <hex new> <hex text>,...             -> texts after fix_distinfo_line texts (Differs old new)
+   An optional file is N (cannot be read) or a hex string; a CVS directory is <opt Entries> <opt Entries.Log>.
+   com  <dir> <hex base>             -> <keys of load_cvs_entries: nil | hex,hex,... | empty> <is_committed: 0|1>
+   hnd  <keys> <add 0|1> <hex text>  -> keys after cvs_handle            (keys: hex,hex,... or "empty")
+   logl <keys> <hex text>            -> keys after cvs_log_line
+   unc  <distinfoIsCommitted 0|1> <patch dir> <hex base> <hex alg> <opt body> <hex hash> <hex digest>
+                                     -> <warned 0|1> <verdict>           (check_uncommitted_patch)
+   cvs  <pkg dir> <patch dir> <hex base> <hex alg> <opt body> <hex hash> <hex digest>
+                                     -> <warned 0|1> <verdict>           (check_entry_cvs)
+   verdict: none | silent | differs <hex old> <hex new> | missing | panic *)
+let opt_of (s : string) = if s = "N" then None else Some (bytes_of_hex s)
+let keys_of (s : string) = if s = "empty" then [] else List.map bytes_of_hex (String.split_on_char ',' s)
+let string_of_keys = function [] -> "empty" | ks -> String.concat "," (List.map hex_of_bytes ks)
+let string_of_verdict = function
+  | Silent -> "silent"
+  | Differs (o, n) -> "differs " ^ hex_of_bytes o ^ " " ^ hex_of_bytes n
+  | DoesNotExist -> "missing"
+  | LoadPanic -> "panic"
+let string_of_gate = function
+  | Ok (w, v) -> (if w then "1 " else "0 ") ^ (match v with None -> "none" | Some v -> string_of_verdict v)
+  | _ -> "panic"
 let handle (args : string list) : string =
   match args with
   | ["dig"; b] ->
@@ -12,13 +33,28 @@ let handle (args : string list) : string =
      | _ -> "panic")
   | ["chk"; b; d; h] ->
     let h = bytes_of_hex h in
-    (match check_patch_sha1 (fun _ -> h) (Some (bytes_of_hex b)) (bytes_of_hex d) with
-     | Silent -> "silent"
-     | Differs (o, n) -> "differs " ^ hex_of_bytes o ^ " " ^ hex_of_bytes n
-     | DoesNotExist -> "missing"
-     | LoadPanic -> "panic")
+    string_of_verdict (check_patch_sha1 (fun _ -> h) (Some (bytes_of_hex b)) (bytes_of_hex d))
   | ["repl"; f; t; texts] ->
     let texts = List.map bytes_of_hex (String.split_on_char ',' texts) in
     String.concat "," (List.map hex_of_bytes (autofix_replace texts (bytes_of_hex f) (bytes_of_hex t)))
+  | ["fixl"; o; n; texts] ->
+    let texts = List.map bytes_of_hex (String.split_on_char ',' texts) in
+    String.concat "," (List.map hex_of_bytes (fix_distinfo_line texts (Differs (bytes_of_hex o, bytes_of_hex n))))
+  | ["com"; e; l; base] ->
+    let d = { cvs_entries = opt_of e; cvs_entries_log = opt_of l } in
+    (match load_cvs_entries d, is_committed d (bytes_of_hex base) with
+     | Ok es, Ok c -> (match es with None -> "nil" | Some ks -> string_of_keys ks) ^ (if c then " 1" else " 0")
+     | _ -> "panic")
+  | ["hnd"; ks; add; text] -> string_of_keys (cvs_handle (keys_of ks) (add = "1") (bytes_of_hex text))
+  | ["logl"; ks; text] -> string_of_keys (cvs_log_line (keys_of ks) (bytes_of_hex text))
+  | ["unc"; dc; e; l; base; alg; body; hash; h] ->
+    let h = bytes_of_hex h in
+    string_of_gate (check_uncommitted_patch (fun _ -> h) (dc = "1") { cvs_entries = opt_of e; cvs_entries_log = opt_of l }
+      (bytes_of_hex base) (bytes_of_hex alg) (opt_of body) (bytes_of_hex hash))
+  | ["cvs"; e1; l1; e2; l2; base; alg; body; hash; h] ->
+    let h = bytes_of_hex h in
+    string_of_gate (check_entry_cvs (fun _ -> h) { cvs_entries = opt_of e1; cvs_entries_log = opt_of l1 }
+      { cvs_entries = opt_of e2; cvs_entries_log = opt_of l2 }
+      (bytes_of_hex base) (bytes_of_hex alg) (opt_of body) (bytes_of_hex hash))
   | _ -> "ERR:bad request"
 let () = serve handle
